@@ -12,7 +12,27 @@ import time
 _ENG = None
 
 
-def _init():
+def _die_with_parent():
+    """a worker must not outlive its check (an orphan that keeps a solver running steals CPU and memory from later
+    checks): ask the kernel for SIGKILL when the parent dies, and poll the parent pid as a fallback"""
+    import threading
+    parent = os.getppid()
+    try:
+        import ctypes
+        import signal
+        ctypes.CDLL(None, use_errno=True).prctl(1, int(signal.SIGKILL), 0, 0, 0)      # PR_SET_PDEATHSIG
+    except Exception:
+        pass
+
+    def poll():
+        while True:
+            time.sleep(5)
+            if os.getppid() != parent:
+                os._exit(70)
+    threading.Thread(target=poll, daemon=True).start()
+
+
+def _init(worker=True):
     global _ENG
     import faulthandler
     import signal
@@ -21,6 +41,8 @@ def _init():
         faulthandler.register(signal.SIGUSR1, file=sys.stderr, all_threads=True)
     except (AttributeError, ValueError, OSError):
         pass
+    if worker:
+        _die_with_parent()
     import contracts  # noqa: F401  (fills the registries)
     import lemmas  # noqa: F401
     from .frontend import Repo
@@ -164,7 +186,7 @@ def run_items(items, jobs=None, item_timeout=780):
     from concurrent.futures.process import BrokenProcessPool
     jobs = jobs or min(16, max(1, len(items)))
     if len(items) <= 1 or jobs == 1:
-        _init()
+        _init(worker=False)
         return [_work(it) for it in items]
     ctx = mp.get_context("spawn")
     results = [None] * len(items)
